@@ -5,8 +5,8 @@
     [orders_pos] = every stored bond order > 0;  [geq_sel G' G] = same atoms with equal element, aromatic,
     hcount, charge and equal bond maps;  [amap_id] = atom_map is the node id;  orders are half-units. *)
 From Coq Require Import List NArith ZArith Bool.
-From SK Require Import lib.LGraph lib.C01_GraphLemmas model.C01_Model model.C02_Model model.C01_Opts model.C01_String
-  proof.C01_Proof proof.C01_OptsProof proof.C01_StringProof proof.C01_StringHyd proof.C01_StringPipe proof.C01_StringEH.
+From SK Require Import lib.LGraph lib.C01_GraphLemmas model.C01_Model model.C02_Model model.C01_Opts model.C01_String model.C01_Renum
+  proof.C01_Proof proof.C01_OptsProof proof.C01_StringProof proof.C01_StringHyd proof.C01_StringPipe proof.C01_StringEH proof.C01_StringRenum.
 Import ListNotations.
 Local Open Scope Z_scope.
 
@@ -296,3 +296,15 @@ Theorem C01_rsmi_pipeline_explicit : forall (str : Type) (rd_read : str -> optio
                   geq_sel (graph_of mr') G /\ geq_sel (graph_of mp') H.
 Proof. exact rsmi_pipeline_explicit. Qed.
 Print Assumptions C01_rsmi_pipeline_explicit.
+
+(** 19. "every atom-map renumbering" inside the model of the string half: applying an injective map f (non-zero maps stay
+        non-zero) to the atom maps of both molecules of a reaction gives the molecule graphs relabelled by f (atom_map
+        following the node id) and the ITS relabelled by f (with atom_map = node id) - no hypothesis on the molecules.
+        Together with C02_rc_equivariant the reaction centre of the renumbered reaction is the renumbered centre. *)
+Theorem C01_renumber : forall f : N -> N, (forall a b, f a = f b -> a = b) -> (forall a, a <> 0%N -> f a <> 0%N) ->
+  forall mr mp : rmol,
+  graph_of (renum_mol f mr) = set_amap (relabel f (graph_of mr)) /\
+  its_construct (graph_of (renum_mol f mr)) (graph_of (renum_mol f mp)) =
+    set_iamap (relabel f (its_construct (graph_of mr) (graph_of mp))).
+Proof. exact renumber. Qed.
+Print Assumptions C01_renumber.
